@@ -214,7 +214,10 @@ const EXOTIC_NAMES: [&str; 24] = [
     "Null", "Boolean", "Block", "_0", "x_y", "Some", "None",
 ];
 const FIELD_NAMES: [&str; 12] = ["f", "g", "val", "B", "Z9", "_a", "aa", "a_", "a0", "len", "x", "next"];
-const METHOD_NAMES: [&str; 8] = ["m", "go", "peek", "bump", "size", "twice", "print", "id"];
+// the last ten are the Feeny word names of built-in operators: as names of user methods they
+// are names like any other (add / sub / mul are left out: the generator itself calls those
+// three as built-ins through a parent)
+const METHOD_NAMES: [&str; 18] = ["m", "go", "peek", "bump", "size", "twice", "print", "id", "eq", "neq", "and", "or", "le", "lt", "ge", "gt", "div", "mod"];
 const EXOTIC_TEXT: [&str; 40] = [
     ": ", " #", "- ", "? ", "|", ">", "%", "@", "`", "!!", "&", "*", "---", "...", " ", "null", "\\~", "true", "yes",
     "1e3", "0x1F", ".inf", "2001-01-01", "(", ")", ";", "'", ",", ".", "#t", "#f", "#nil", "\\\\x41;", "\\\\u0041",
